@@ -134,7 +134,11 @@ func genSharedSpecs(W *core.Track) []sharedSpec {
 	n := 2 + W.Draw(5)
 	var specs []sharedSpec
 	for i := 0; i < n; i++ {
-		switch W.Draw(8) {
+		switch W.Draw(10) {
+		case 8:
+			specs = append(specs, sharedSpec{kind: "uconcat", str: long[1+W.Draw(2)]})
+		case 9:
+			specs = append(specs, sharedSpec{kind: "builder", str: long[1+W.Draw(2)]})
 		case 0, 1, 2:
 			specs = append(specs, sharedSpec{kind: "gostr", str: long[W.Draw(len(long))]})
 		case 3:
@@ -152,6 +156,19 @@ func genSharedSpecs(W *core.Track) []sharedSpec {
 	return specs
 }
 
+func utf16Of(s string) []uint16 {
+	var u []uint16
+	for _, r := range s {
+		if r > 0xffff {
+			r -= 0x10000
+			u = append(u, uint16(0xd800+(r>>10)), uint16(0xdc00+(r&0x3ff)))
+		} else {
+			u = append(u, uint16(r))
+		}
+	}
+	return u
+}
+
 // buildShared constructs the values with the help of one runtime (or package-level constructors).
 func buildShared(rt *goja.Runtime, specs []sharedSpec) []goja.Value {
 	var vals []goja.Value
@@ -165,6 +182,20 @@ func buildShared(rt *goja.Runtime, specs []sharedSpec) []goja.Value {
 			rt.Set("__a", a)
 			rt.Set("__b", b)
 			v, err := rt.RunString("__a + __b")
+			if err != nil {
+				panic(err)
+			}
+			vals = append(vals, v)
+		case "uconcat", "builder":
+			// a UTF-16 string produced by concatenation / by a builder: its backing array may have spare capacity, so a
+			// careless in-place append by one runtime would be visible to the others
+			rt.Set("__a", goja.StringFromUTF16(utf16Of(sp.str)))
+			rt.Set("__b", goja.StringFromUTF16(utf16Of("\u00fc\u00f6 tail")))
+			src := "__a + __b"
+			if sp.kind == "builder" {
+				src = "[__a, __b, __a].join('\u00e9') + __b.repeat(2)"
+			}
+			v, err := rt.RunString(src)
 			if err != nil {
 				panic(err)
 			}
@@ -195,7 +226,7 @@ func buildShared(rt *goja.Runtime, specs []sharedSpec) []goja.Value {
 	return vals
 }
 
-const nRaceStmt = 20
+const nRaceStmt = 21
 
 func genRaceProgram(W *core.Track, nshared int) string {
 	var sb strings.Builder
@@ -238,6 +269,8 @@ func genRaceProgram(W *core.Track, nshared int) string {
 			fmt.Fprintf(&sb, "{ var s = SH[%d], t = SH[%d]; if (typeof s === 'string' && typeof t === 'string') { var c = s + t; out.push(c.length, c.charCodeAt(s.length), (c + c).length, c.slice(s.length - 2, s.length + 2), c === s + t, `${s}|${t}`.length, [s, t].join('').length === c.length, s.concat(t, s).length); } }\n", a, b)
 		case 16:
 			fmt.Fprintf(&sb, "out.push(JSON.stringify({ a: [1, { b: 'x\\u00e9' }], c: null }), JSON.parse('{\"k\":[1,2,{\"z\":\"\\\\u00e9\"}]}').k[2].z, new Date(0).toISOString(), (12345.678).toFixed(2), (255).toString(16), parseFloat('1e3'));\n")
+		case 19: // concatenations onto a shared (possibly spare-capacity) UTF-16 base, with a suffix that differs per goroutine
+			fmt.Fprintf(&sb, "{ var s = SH[%d]; if (typeof s === 'string') { var c1 = s + '\u03b1' + TID, c2 = s + '\u03b2\u03b3' + TID; var c3 = ('\u00e9\u00e8' + '\u00fc\u00f6') + '\u03b1' + TID; out.push(c1.length - String(TID).length, c1.charCodeAt(s.length), c2.charCodeAt(s.length), c1.slice(s.length, s.length + 1) + c2.slice(s.length, s.length + 2), c3.slice(0, 5), c1 === s + '\u03b1' + TID); } }\n", a)
 		case 17: // publish a value created by THIS runtime during the run through the mutex-guarded mailbox
 			fmt.Fprintf(&sb, "{ var s = SH[%d], t = SH[%d]; MB_PUT(typeof s === 'string' && typeof t === 'string' ? [s + t, (s + '|' + t).slice(2), `${t}${s}`, s.toUpperCase(), JSON.stringify([s, t]), s.repeat(2)][%d] : Symbol('mb%d')); }\n", a, b, W.Draw(6), i)
 		case 18: // use whatever another runtime has published so far (schedule-dependent: executed, not recorded)
@@ -282,8 +315,9 @@ func (m *raceMailbox) install(rt *goja.Runtime) {
 	})
 }
 
-func runRaceScript(rt *goja.Runtime, prg *goja.Program, shared []goja.Value, times int, mb *raceMailbox) (outs []string, errs []string) {
+func runRaceScript(rt *goja.Runtime, prg *goja.Program, shared []goja.Value, times int, mb *raceMailbox, tid int) (outs []string, errs []string) {
 	mb.install(rt)
+	rt.Set("TID", tid)
 	arr := make([]interface{}, len(shared))
 	for i, v := range shared {
 		arr[i] = v
@@ -329,7 +363,7 @@ func (e *racesim) Run(t *core.Tape, want bool) *core.Result {
 		return res
 	}
 	refRt := goja.New()
-	refOut, refErr := runRaceScript(refRt, refPrg, buildShared(refRt, specs), times, &raceMailbox{})
+	refOut, refErr := runRaceScript(refRt, refPrg, buildShared(refRt, specs), times, &raceMailbox{}, 0)
 	for _, e := range refErr {
 		if strings.HasPrefix(e, "GO-PANIC") {
 			res.OutOfScope = "the script crashes the engine when run alone: " + e
@@ -365,7 +399,7 @@ func (e *racesim) Run(t *core.Tape, want bool) *core.Result {
 			defer wg.Done()
 			tk.bt.wait() // wait to be scheduled for the first time
 			tk.rt = goja.New()
-			tk.out, tk.errs = runRaceScript(tk.rt, prg, shared, times, mailbox)
+			tk.out, tk.errs = runRaceScript(tk.rt, prg, shared, times, mailbox, tk.id)
 			if handover {
 				// an Object of another runtime must be rejected
 				func() {
@@ -378,6 +412,21 @@ func (e *racesim) Run(t *core.Tape, want bool) *core.Result {
 					}()
 					tk.rt.ToValue(foreignObj)
 				}()
+				// ... also when it travels inside a Go container or comes back from a native function
+				for ci, mk := range []func() interface{}{
+					func() interface{} { return []interface{}{1, foreignObj} },
+					func() interface{} { return map[string]interface{}{"k": foreignObj} },
+					func() interface{} { return &[]interface{}{foreignObj} },
+					func() interface{} { return struct{ F interface{} }{foreignObj} },
+					func() interface{} { return func() interface{} { return foreignObj } },
+				} {
+					acc := []string{"c[1]", "c.k", "c[0]", "c.F", "c()"}[ci]
+					tk.rt.Set("c", mk())
+					_, err := tk.rt.RunString("var got = " + acc + "; typeof got === 'object' && got !== null ? (got.leak = 1, 'ACCEPTED') : String(got)")
+					if err == nil || !strings.Contains(err.Error(), "Illegal runtime transition") {
+						tk.foreign = append(tk.foreign, fmt.Sprintf("container %s: foreign object accepted (err=%v)", acc, err))
+					}
+				}
 				if err := tk.rt.Set("foreign", foreignObj); err != nil {
 					tk.foreign = append(tk.foreign, "Set: "+err.Error())
 				} else {
@@ -437,6 +486,11 @@ func (e *racesim) Run(t *core.Tape, want bool) *core.Result {
 		}
 		if handover {
 			ok := len(tk.foreign) == 2 && strings.Contains(tk.foreign[0], "Illegal runtime transition") && strings.Contains(tk.foreign[1], "Illegal runtime transition")
+			for _, f := range tk.foreign {
+				if strings.Contains(f, "accepted") {
+					ok = false
+				}
+			}
 			if !ok {
 				res.Fail("foreign-object-accepted", "foreign-object", fmt.Sprintf("goroutine %d: an Object of another Runtime was not rejected with a TypeError: %v", tk.id, tk.foreign), render())
 			}
